@@ -14,7 +14,7 @@ RULE = ("all pairs of states over a small universe (2 objects; p/1 q/2 z/0; f/1 
         "distinct by the two contents; non-trivial when the two states differ in exactly one fact or one fluent value (the "
         "hardest pairs to tell apart) or are equal but built by different routes")
 DECISIVE = ["compared:eq", "compared:copy", "compared:serialize"]
-DECISIVE_EACH = ["compared:eq", "compared:copy", "compared:serialize", "compared:eq:expected-equal", "compared:eq:expected-unequal"]
+DECISIVE_EACH = ["compared:eq", "compared:copy", "compared:serialize", "compared:eq:expected-equal", "compared:eq:expected-unequal", "compared:text-after-in-place-change", "compared:parsed-states-independent"]
 EXHAUSTIVE = "all ordered pairs of the enumerated state list (1536 states in thorough)"
 ASSUMPTIONS = ["content of a state is known from its construction (atom set, fluent -> value)"]
 SHARDS = {"quick": 16, "thorough": 16}
@@ -187,6 +187,101 @@ def probe_copy_and_serialize(ctx, b, st, route, rng):
         ctx.violation("state-serialize:raises", {"state": model.show_state(st), "route": route, "observed": lib.exc_name(e)})
 
 
+def probe_text_follows_the_state(ctx, b, st, route, rng):
+    """a state is a mutable value: after it was written (and queried) and then changed in place through its public
+    containers, writing it again gives the text of the state it is NOW"""
+    atoms, fl = st
+    plain_fl = [k for k in fl if len(set(k[1:])) == len(k[1:])]
+    if not atoms and not plain_fl:
+        return
+    s = b.build(st, route)
+    try:
+        s.serialize()
+        s.typed_serialize()
+        lib.make_operator(b.dom, "set-z", [], b.objs).is_applicable(s)
+    except BaseException:
+        pass
+    want_atoms, want_fl = set(atoms), dict(fl)
+    done = False
+    try:
+        if plain_fl and (not atoms or rng.random() < 0.5):
+            k = rng.choice(sorted(plain_fl))
+            key = "(" + " ".join(k) + ")"
+            if key in s.state_fluents:
+                s.state_fluents[key].set_value(float(fl[k]) + 7)
+                want_fl[k] = fl[k] + 7
+                done = True
+        if not done and atoms:
+            a = rng.choice(sorted(atoms))
+            txt = "(" + " ".join(a) + (" " if len(a) == 1 else "") + ")"
+            for group in s.state_predicates.values():
+                for gp in list(group):
+                    if sx.read(gp.untyped_representation) == list(a):
+                        group.discard(gp)
+                        want_atoms.discard(a)
+                        done = True
+    except BaseException:
+        return
+    if not done:
+        return
+    ctx.count("compared:serialize")
+    ctx.count("compared:text-after-in-place-change")
+    try:
+        t2 = s.serialize()
+        back = model.read_state_text(t2)
+    except BaseException as e:
+        ctx.violation("state-serialize:raises", {"state": model.show_state(st), "route": route, "observed": lib.exc_name(e)})
+        return
+    if (set(back[0]), back[1]) != (want_atoms, want_fl):
+        ctx.violation("state-serialize:text-written-after-an-in-place-change-is-not-the-state",
+                      {"state_before": model.show_state(st), "state_now": model.show_state((frozenset(want_atoms), want_fl)),
+                       "route": route, "text": t2})
+
+
+def probe_parsed_states_are_independent(ctx, b, sts, rng):
+    """the states of a parsed observation are values of their own: changing one in place changes no other
+    (the pre-state of step i+1 equals the post-state of step i, it is not the same object)"""
+    def items(st):
+        atoms, fl = st
+        return [list(a) for a in sorted(atoms)] + [["=", list(k), lib.frac_str(v)] for k, v in sorted(fl.items())]
+    text = "(" + sx.plain([":init"] + items(sts[0]))
+    for st in sts[1:]:
+        text += "\n(operator: (set-z ))\n" + sx.plain([":state"] + items(st))
+    text += "\n)"
+    try:
+        from pathlib import Path
+        from vlib import env
+        obs = lib.TrajectoryParser(b.dom, None).parse_trajectory(Path(env.write_tmp(text, suffix=".trajectory")))
+        comps = list(obs.components)
+    except BaseException as e:
+        ctx.count("trajectory_independence_probe_refused")
+        return
+    states = []
+    for c in comps:
+        states += [c.previous_state, c.next_state]
+    for i in range(len(states)):
+        before = [digest.d_state_value(x) for x in states]
+        try:
+            tgt = states[i]
+            for f in tgt.state_fluents.values():
+                f.set_value(f.value + 11)
+                break
+            for group in tgt.state_predicates.values():
+                if group:
+                    group.discard(next(iter(group)))
+                    break
+        except BaseException:
+            continue
+        ctx.count("compared:copy")
+        ctx.count("compared:parsed-states-independent")
+        for j in range(len(states)):
+            if j != i and digest.d_state_value(states[j]) != before[j]:
+                ctx.violation("state-copy:changing-one-parsed-state-changed-another",
+                              {"changed": f"state {i} of the observation (0 = pre-state of step 0, 1 = its post-state, ...)",
+                               "also_changed": j, "trajectory": text[:1500]})
+                return
+
+
 def random_big_state(rng):
     objs = ["a", "b"]
     atoms = set()
@@ -263,6 +358,9 @@ def run(ctx):
             except BaseException:
                 pass
         probe_copy_and_serialize(ctx, b, st1, r1, rng)
+        probe_text_follows_the_state(ctx, b, st1, r1, rng)
+        if i % 5 == 0:
+            probe_parsed_states_are_independent(ctx, b, [st1] + [states[j] for j in rng.sample(range(n), rng.randint(1, 3))], rng)
         if i == rows[0]:
             ctx.sample({"state": model.show_state(st1), "route": r1, "compared_with": n})
     # pairs of states that differ only by a hair in one fluent value: == must tell them apart and their serialisations
